@@ -391,6 +391,18 @@ func (ss schedsim) runInBubble(c *Case, dir string, out *Outcome) {
 	for k, v := range s.Points {
 		out.probe(k, v)
 	}
+	// scheduling "faults" that actually happened in this run
+	if s.Preempts > 0 {
+		out.fault("preemption-at-hook-point", s.Preempts)
+	}
+	if n := s.Points["io.mmap"]; n > 0 {
+		out.fault("remap-during-concurrent-run", n)
+	}
+	for _, k := range []string{"blocked-on-lock.rwlock", "blocked-on-lock.metalock", "blocked-on-lock.mmaplock"} {
+		if n := s.Points[k]; n > 0 {
+			out.fault("task-"+k, n)
+		}
+	}
 	out.probe("goroutines-adopted-at-ordinary-hooks", s.Adopted)
 	out.probe("time-advances", s.TimeAdv)
 	if s.Exhausted {
@@ -467,6 +479,9 @@ func (ss schedsim) runInBubble(c *Case, dir string, out *Outcome) {
 	}
 	if n := m.probes["backup-device-full"]; n > 0 {
 		out.fault("backup-destination-device-full", n)
+	}
+	if n := m.probes["dump-by-old-reader"]; n > 0 {
+		out.fault("reader-dump-while-newer-versions-committed", n)
 	}
 	out.Viol = append(out.Viol, m.viol...)
 	out.merge(m.probes)
